@@ -1015,10 +1015,19 @@ impl<'a, 'b> Gen<'a, 'b> {
         self.saw_data = saved || d;
         self.taint(a.key, d);
         let (first, second) = if self.t.chance(200) { ((i, rhs1), (j, rhs2)) } else { ((j, rhs2), (i, rhs1)) };
-        for (k, rhs) in [first, second] {
+        // the second write may sit in another basic block (inside a branch)
+        let split = self.t.chance(100);
+        for (n, (k, rhs)) in [first, second].into_iter().enumerate() {
             let ix = self.small_literal(k as u64);
             let lhs = Expr::Var { id: self.ids.next(), name: a.name.clone(), access: vec![Access::Index(ix)] };
-            stmts.push(Stmt::Assign { id: self.ids.next(), lhs, op: AssignOp::Var, rhs, reversed: false });
+            let st = Stmt::Assign { id: self.ids.next(), lhs, op: AssignOp::Var, rhs, reversed: false };
+            if n == 1 && split {
+                let cond = self.cond();
+                let then = Stmt::Block { id: self.ids.next(), stmts: vec![st] };
+                stmts.push(Stmt::If { id: self.ids.next(), cond, then: Box::new(then), els: None });
+            } else {
+                stmts.push(st);
+            }
         }
         // a read of one of the two elements into a scalar local, if there is one
         let scalars: Vec<VarInfo> =
